@@ -19,12 +19,15 @@ MatrixViol(ev) ==
    IF ev.k < 1 THEN {"C04 matrix could not be obtained"}
    ELSE IF Has(ev, "null") THEN {"C04 make_systematic_matrix returned NULL"}
    ELSE IF ev.mat # Flat(ev.k, ev.m) THEN {"C04 generator matrix differs from the canonical closed form"} ELSE {}
-\* parity word r, bit i of the basis encode of column j  =  Coef(k, k+r, j) * 2^i
+\* word i of parity r of the basis encode of column j (data word i = 2^(i mod 16))  =  Coef(k, k+r, j) * 2^(i mod 16),
+\* for every word of the payload (payload sizes of every residue modulo 16 bytes and very short ones)
 BasisViol(ev) ==
    LET k == ev.k  j == ev.j
+       nw == IF Has(ev, "nw") THEN ev.nw ELSE 16
        linv == GfInv(L(k, j, k))
-       want == [r \in 1..ev.m |-> LET c == GfMul(L(k, j, k + r - 1), linv) IN [i \in 1..16 |-> GfMul(c, 2^(i-1))]]
-   IN IF ev.par # want THEN {"C04 parity words of a basis encode differ from coefficient * 2^i"} ELSE {}
+       want == [r \in 1..ev.m |-> LET c == GfMul(L(k, j, k + r - 1), linv) IN [i \in 1..nw |-> GfMul(c, 2^((i-1) % 16))]]
+   IN IF ev.flen # 80 + 2 * nw THEN {"C04 payload of a basis encode is not the data length / k"}
+      ELSE IF ev.par # want THEN {"C04 parity words of a basis encode differ from coefficient * 2^i"} ELSE {}
 Viol(ev) ==
    CASE ev.e = "Matrix" -> MatrixViol(ev)
      [] ev.e = "Basis" -> BasisViol(ev)
